@@ -6,10 +6,8 @@ From AV.C01 Require Import Base Model Spec Lemmas.
 Import ListNotations.
 Local Open Scope char_scope.
 
-(* `parse` is a structurally recursive function of the string (one `step` per character, no fuel):
-   it returns an outcome for every input. *)
-Theorem parse_total : forall s : str, exists r : result, parse s = r.
-Proof. intros s. exists (parse s). reflexivity. Qed.
+(* `parse` is a Gallina Fixpoint on the string (one `step` per character, no fuel), hence total by
+   construction; that needs no theorem. *)
 
 (* Never an unrelated exception: on EVERY byte string the outcome is a molecule or
    InvalidSmilesString.  (Crash models AssertionError / TypeError / IndexError / ValueError.) *)
@@ -29,17 +27,27 @@ Theorem parse_spell_denote : forall (c : chain) (k : choices) da db,
                 map erase_stereo pa = map erase_stereo da /\ Permutation pb db.
 Proof. intros c k da db. apply parse_respell_denote_l. Qed.
 
-(* ... hence the same total charge (read off the syntax tree) and the same electron-count parity
-   (Parser.mult) as the reference reader. *)
-Theorem parse_charge_and_parity : forall (c : chain) da db,
-  chain_ok c = true -> denote c = Some (da, db) ->
-  exists pa pb, parse (spell c) = Ok pa pb /\
-    total_charge pa = chain_charge c /\ total_charge pa = total_charge da /\ mult pa = mult da.
-Proof. exact parse_charge_parity_l. Qed.
+(* The package's element list (regenerated from autode/atoms.py on every run) is the periodic table that the
+   reference reader writes down independently (Spec.periodic, H ... Og): atomic numbers are positions in it. *)
+Theorem elements_are_the_periodic_table : C01_Gen.elements = periodic.
+Proof. symmetry. exact periodic_eq. Qed.
 
-(* Ring-label renaming: an injective renaming of the labels does not change the denoted molecule,
-   so (when the new labels are below 100) the parser reads both spellings as the same molecule. *)
-Theorem ring_relabel_invariant : forall (f : nat -> nat) (c : chain),
+(* ... hence, for every spelling choice, the total charge equals the charge read off the syntax tree, and
+   Parser.mult equals the reference reader's OWN electron-count parity: spec_mult sums atomic numbers from
+   Spec.periodic, hydrogens and charges of the DENOTED atoms (Spec.v mentions neither Parser.mult nor the
+   package's element list). *)
+Theorem parse_charge_and_parity : forall (c : chain) (k : choices) da db,
+  chain_ok c = true -> denote c = Some (da, db) ->
+  exists pa pb, parse (spell (respell k c)) = Ok pa pb /\
+    total_charge pa = chain_charge c /\ mult pa = spec_mult da.
+Proof. intros c k da db. apply parse_charge_parity_respell_l. Qed.
+
+(* PARTIAL.  Ring-label renaming: an INJECTIVE renaming of the labels does not change the denoted molecule,
+   so (when the new labels are below 100) the parser reads both spellings as the same molecule.  Label
+   REUSE in time ("C1CC1C2CC2" vs "C1CC1C1CC1", not an injective renaming) has no theorem relating the two
+   trees: each spelling is related to its own denotation by parse_spell_denote, and their equality is
+   checked by the generator stream only (label styles + isomorphism oracle). *)
+Theorem ring_relabel_invariant_partial : forall (f : nat -> nat) (c : chain),
   (forall a b, f a = f b -> a = b) ->
   denote (rename f c) = denote c /\
   (forall da db, chain_ok (rename f c) = true -> denote c = Some (da, db) ->
@@ -77,6 +85,23 @@ Proof. exact reject_open_bracket_l. Qed.
 Theorem reject_unbalanced_parentheses : forall s : str,
   count_occ ascii_dec s "(" <> count_occ ascii_dec s ")" -> parse s = Invalid.
 Proof. exact reject_unbalanced_parens_l. Qed.
+
+(* an empty branch "()" / a branch opened twice "((" / ")" right after "(" -- anywhere in the string *)
+Theorem reject_empty_or_nested_open_branch : forall (s a b : str) (y : ascii),
+  strip s = (a ++ "(" :: y :: b)%list -> paren y = true -> parse s = Invalid.
+Proof. intros s a b y. apply reject_open_then_paren_l. Qed.
+
+(* PARTIAL (strings without "[" and "%"): a bond symbol followed by another bond symbol or a parenthesis
+   ("C==C", "C=)C", "C=(C)C").  Inside a bracket such characters are ignored (reject_bracket_junk_refuted). *)
+Theorem reject_interior_dangling_bond_partial : forall (s a b : str) (x y : ascii),
+  plain s -> strip s = (a ++ x :: y :: b)%list -> is_bond_char x = true -> is_bond_char y || paren y = true ->
+  parse s = Invalid.
+Proof. intros s a b x y. apply reject_interior_dangling_l. Qed.
+
+(* PARTIAL (strings without "[" and "%"): a ring label directly after "(" ("C1CC(1)") *)
+Theorem reject_ring_label_at_branch_start_partial : forall (s a b : str) (d : ascii),
+  plain s -> strip s = (a ++ "(" :: d :: b)%list -> is_digit d = true -> parse s = Invalid.
+Proof. intros s a b d. apply reject_label_at_branch_start_l. Qed.
 
 (* PARTIAL (strings without "[" and "%"): a ring label digit written an odd number of times is an
    unclosed ring.  Inside brackets digits are hydrogen counts / charges / classes and after "%" they
@@ -150,8 +175,14 @@ Proof. split; [reflexivity|]. split; [reflexivity|]. eexists; eexists. split; [v
 Example ex_relabel : (forall a b, (fun l => l + 20) a = (fun l => l + 20) b -> a = b) /\
   chain_ok (rename (fun l => l + 20) ex_chain) = true.
 Proof. split; [intros a b H; lia | reflexivity]. Qed.
+(* a four-digit class, H0, a two-letter symbol with H count, a numeric charge: inside the grammar *)
+Example ex_bracket_forms :
+  chain_ok (Atom (Brk (mkBracket (S "Si") 0 (HNum 0) (CNum true 0) (Some [1; 2; 3; 4]))) [] TEnd) = true /\
+  spell (Atom (Brk (mkBracket (S "Si") 0 (HNum 0) (CNum true 0) (Some [1; 2; 3; 4]))) [] TEnd) = S "[SiH0+0:1234]".
+Proof. split; reflexivity. Qed.
 Example ex_rejections :
   parse (S "1CC1") = Invalid /\ parse (S "C(") = Invalid /\ parse (S "C=") = Invalid /\ parse (S "C1CC") = Invalid /\
   parse (S "[CH4") = Invalid /\ parse (S "C?C") = Invalid /\ parse (S "C.C") = Invalid /\
-  parse (S "C%+1CC1") = Invalid /\ parse (S "C1CC(1)") = Invalid /\ parse (S "C(=1)CC1") = Invalid /\ parse (S "[X]") = Invalid.
+  parse (S "C%+1CC1") = Invalid /\ parse (S "C1CC(1)") = Invalid /\ parse (S "C(=1)CC1") = Invalid /\ parse (S "[X]") = Invalid /\
+  parse (S "[C:+1]") = Invalid /\ parse (S "[C: 7]") = Invalid /\ parse (S "[C:1_0]") = Invalid /\ parse (S "[C:]") = Invalid.
 Proof. repeat split; vm_compute; reflexivity. Qed.
